@@ -143,7 +143,7 @@ def safe_unfold(code):
     while i < len(code):
         if code[i] == '\\' and code[i + 1:i + 2] == '\n':
             k = bad.get(i)
-            if k in ('string', 'comment'):
+            if k in ('string', 'comment', 'string-harmless'):
                 out.append('\\\n')
             elif k is not None:
                 out.append(' ')
@@ -215,7 +215,7 @@ class Harness(object):
     def classify_unfold(self, fn, want, blk):
         """known finding iff the block has an unsafe backslash-newline AND neutralising exactly those makes
         parse_entity return the right tree."""
-        kinds = sorted(set(k for _, k in L.unsafe_continuations(blk)))
+        kinds = sorted(set(k for _, k in L.unsafe_continuations(blk)) - {'string-harmless'})
         if not kinds:
             return None
         parser = self.parser
@@ -237,8 +237,8 @@ class Harness(object):
                 while i < len(code):
                     if code[i] == '\\' and code[i + 1:i + 2] == '\n':
                         kk = bad.get(i)
-                        if kk == k:
-                            out.append('\\\n' if k in ('string', 'comment') else ' ')
+                        if kk == k or kk == 'string-harmless':
+                            out.append('\\\n' if kk in ('string', 'comment', 'string-harmless') else ' ')
                         i += 2
                     else:
                         out.append(code[i])
